@@ -75,7 +75,8 @@ type xlTr struct {
 	roles map[string]string // Go identifier -> ".node" | ".mark"
 }
 
-func isNodePtr(t ast.Expr) bool {
+// isPtrTo: t is `*name` or `*name[...]`.
+func isPtrTo(t ast.Expr, name string) bool {
 	st, ok := t.(*ast.StarExpr)
 	if !ok {
 		return false
@@ -90,10 +91,21 @@ func isNodePtr(t ast.Expr) bool {
 			x = y.X
 			continue
 		case *ast.Ident:
-			return y.Name == "Node"
+			return y.Name == name
 		}
 		return false
 	}
+}
+
+func isNodePtr(t ast.Expr) bool { return isPtrTo(t, "Node") }
+
+// recvIsPtrTo: the method has exactly one receiver and its type is `*name[...]`. The statement
+// interpreter of the model mutates the list / the nodes *in place* (`l.front = …`, `n.prev = …`), which
+// is what the Go statements do only through a pointer receiver: with a value receiver (`func (l List[T])
+// Clear()`) the same statements act on a copy. A translated method or accessor whose receiver is not
+// the expected pointer type is therefore an extraction error (= broken tie), not a fact.
+func recvIsPtrTo(fd *ast.FuncDecl, name string) bool {
+	return fd.Recv != nil && len(fd.Recv.List) == 1 && isPtrTo(fd.Recv.List[0].Type, name)
 }
 
 func recvIdent(fd *ast.FuncDecl) string {
@@ -108,6 +120,9 @@ func (c *Ctx) xlAccessor(name string) string {
 	fd, err := c.FindFunc("container/xlist", name)
 	if err != nil || len(fd.Body.List) != 1 {
 		return ""
+	}
+	if !recvIsPtrTo(fd, strings.SplitN(name, ".", 2)[0]) {
+		return "" // value receiver (or a different type): reported as an extraction error by the caller
 	}
 	r, ok := fd.Body.List[0].(*ast.ReturnStmt)
 	if !ok || len(r.Results) != 1 {
@@ -436,6 +451,9 @@ func xlistProgram(c *Ctx, s *Site) (string, error) {
 	if t.recv == "" {
 		return "", fmt.Errorf("%s has no named receiver", s.Func)
 	}
+	if !recvIsPtrTo(fd, "List") {
+		return "", fmt.Errorf("%s: receiver is `%s`, not `*List[...]`: its statements would act on a copy of the list", s.Func, c.Pretty(fd.Recv.List[0].Type))
+	}
 	var ptrParams []string
 	for _, f := range fd.Type.Params.List {
 		if isNodePtr(f.Type) {
@@ -530,7 +548,7 @@ func xlistAccessor(kind string) func(c *Ctx, s *Site) (string, error) {
 		case "size":
 			return fmt.Sprintf("/-- `%s` returns `l.size` -/\ndef %s : Bool := %v\n", s.Func, s.Name, f == "size"), nil
 		}
-		return "", fmt.Errorf("%s is not a one-line accessor of the expected field (returns %q)", s.Func, f)
+		return "", fmt.Errorf("%s is not a one-line pointer-receiver accessor of the expected field (returns %q)", s.Func, f)
 	}
 }
 
